@@ -1503,8 +1503,15 @@ impl GRLParser {
             });
         }
 
+        // An assignment operator stands before the first quote or parenthesis of the
+        // statement: `Log("a=b")`, `X.s = "a+=b"` and `SetWorkflowData("k=v")` contain none
+        let head_len = trimmed
+            .find(|c: char| c == '"' || c == '\'' || c == '(')
+            .unwrap_or(trimmed.len());
+        let head = &trimmed[..head_len];
+
         // Check for compound assignment operators first (+=, -=, etc.)
-        if let Some(plus_eq_pos) = trimmed.find("+=") {
+        if let Some(plus_eq_pos) = head.find("+=") {
             // Append operator: Field += Value
             let field = trimmed[..plus_eq_pos].trim().to_string();
             let value_str = trimmed[plus_eq_pos + 2..].trim();
@@ -1514,7 +1521,7 @@ impl GRLParser {
         }
 
         // Assignment: Field = Value
-        if let Some(eq_pos) = trimmed.find('=') {
+        if let Some(eq_pos) = head.find('=') {
             let field = trimmed[..eq_pos].trim().to_string();
             let value_str = trimmed[eq_pos + 1..].trim();
             let value = self.parse_value(value_str)?;
@@ -1614,7 +1621,8 @@ impl GRLParser {
                 }
                 "setworkflowdata" | "set_workflow_data" => {
                     // Parse key=value: SetWorkflowData("key=value")
-                    let data_str = args_str.trim();
+                    // the argument is one quoted string: "key=value"
+                    let data_str = args_str.trim().trim_matches('"');
 
                     // Simple key=value parsing
                     let (key, value) = if let Some(eq_pos) = data_str.find('=') {
